@@ -32,6 +32,7 @@ class Sched(object):
         self.ts = {}
         self.turn = None
         self.local = _threading.local()
+        self.dead = False
         self.log = []            # (thread, op) in execution order
 
     # ---- called from controlled threads -------------------------------------------------------
@@ -48,7 +49,7 @@ class Sched(object):
             t.pending = op
             self.turn = None
             self.cv.notify_all()
-            if not self.cv.wait_for(lambda: self.turn == name, timeout=WATCHDOG):
+            if not self.cv.wait_for(lambda: self.turn == name or self.dead, timeout=WATCHDOG) or self.dead:
                 raise SchedulerStuck("thread %s never got the turn back" % name)
             t.pending = None
             t.steps += 1
@@ -63,7 +64,7 @@ class Sched(object):
             self.local.name = name
             # wait for the first turn so that thread start-up itself is not a step
             with self.cv:
-                if not self.cv.wait_for(lambda: self.turn == name, timeout=WATCHDOG):
+                if not self.cv.wait_for(lambda: self.turn == name or self.dead, timeout=WATCHDOG) or self.dead:
                     return
             try:
                 t.result = fn()
@@ -99,6 +100,12 @@ class Sched(object):
             raise SchedulerStuck("thread %s has nothing pending" % name)
         self._grant(name)
         return t.pending
+
+    def shutdown(self):
+        """End of an execution: parked threads (e.g. of a deadlocked schedule) are released so that they exit now."""
+        with self.cv:
+            self.dead = True
+            self.cv.notify_all()
 
     def pending(self):
         return {n: t.pending for n, t in self.ts.items() if not t.finished}
